@@ -426,10 +426,14 @@ func runC08(res *lp.Result) {
 			return o.Bytes(), e
 		}, func(in []byte) ([]byte, error) { var o bytes.Buffer; e := s.DecompressWithLength(bytes.NewReader(in), &o); return o.Bytes(), e }, nil, nil},
 	}
+	var modelInputs [][]byte
 	for _, sz := range sizes {
 		classes := map[string][]byte{"zero": make([]byte, sz), "ones": bytes.Repeat([]byte{0xff}, sz), "repeat": bytes.Repeat([]byte("abcdefgh"), sz/8+1)[:sz],
 			"text": text(sz), "random": rng.Bytes(sz)}
 		for cl, in := range classes {
+			if sz <= 20000 && (sz <= 4096 || len(modelInputs) < 400) {
+				modelInputs = append(modelInputs, in)
+			}
 			for _, c := range comps {
 				for _, format := range []string{"with-length", "raw"} {
 					var enc, dec func([]byte) ([]byte, error)
@@ -465,6 +469,7 @@ func runC08(res *lp.Result) {
 			}
 		}
 	}
+	runC08Model(res, modelInputs)
 }
 
 func maxInt(a, b int) int {
